@@ -32,6 +32,7 @@ let handle (lines : string list) : unit =
       prev := Array.of_list (List.concat (List.rev !cur)); cur := [];
       ctx := NoCtx;
       let key = unhex khex and o = parse_op o and m = parse_mode m in
+      let ks = ref "" in
       let e =
         if a = "aes" then begin
           bs := 16;
@@ -40,13 +41,13 @@ let handle (lines : string list) : unit =
         else if a = "des" then begin
           bs := 8;
           let (e, c) = des_set_key (not (has 'k')) (not (has 'c')) o m key in
-          (match c with Some c -> ctx := D c | None -> ()); e end
+          (match c with Some c -> ctx := D c; ks := " ks=" ^ hex (impl_des_ctx_bytes o m key) | None -> ()); e end
         else begin
           bs := 8;
           let k1 = pad 8 key and k2 = pad 8 (drop 8 key) and k3 = pad 8 (drop 16 key) in
           let (e, c) = tdes_set_key (not (has 'k')) (not (has '2')) (not (has '3')) (not (has 'c')) o m k1 k2 k3 in
-          (match c with Some c -> ctx := T c | None -> ()); e end in
-      print_endline ("setkey " ^ errname e)
+          (match c with Some c -> ctx := T c; ks := " ks=" ^ hex (impl_tdes_ctx_bytes o m k1 k2 k3) | None -> ()); e end in
+      print_endline ("setkey " ^ errname e ^ !ks)
     | ["state"; ivh; off; sbh] ->
       st := { s_iv = pad 16 (unhex ivh); s_off = n_of_string off; s_sb = pad 16 (unhex sbh) }
     | ["crypt"; fn; _align; nulls; dh] ->
